@@ -210,6 +210,7 @@ class Check(DiffCheck):
 import sys, subprocess, os
 lines = [l.rstrip('\\n') for l in open(sys.argv[1]) if l.strip() and not l.startswith('#')]
 i = 0
+nretry = 0          # a tree on which many cases hang is broken anyway: only the first few hangs are re-run
 while i < len(lines):
     tag = lines[i][0]
     j = i
@@ -222,10 +223,11 @@ while i < len(lines):
     for k in range(j - i):
         # a HANG of the E2 child is a real-time event (20 s without output on a loaded machine): such a case is run again,
         # alone and with a 10x limit, before it is believed
-        if tag in 'PM' and k < len(out) and 'HANG' in out[k][:40]:
+        if tag in 'PM' and k < len(out) and 'HANG' in out[k][:40] and nretry < 4:
+            nretry += 1
             one = sys.argv[1] + '.%%d.retry' %% (i + k)
             open(one, 'w').write(lines[i + k] + '\\n')
-            env2 = dict(os.environ); env2['E2_TIMEOUT_MS'] = '200000'; env2['E4_TIMEOUT_MS'] = '900000'; env2['E4_STEP_TIMEOUT_S'] = '600'
+            env2 = dict(os.environ); env2['E2_TIMEOUT_MS'] = '200000'; env2['E4_TIMEOUT_MS'] = '400000'; env2['E4_STEP_TIMEOUT_S'] = '300'
             for attempt in range(2):
                 q = subprocess.run([exe, one], stdout=subprocess.PIPE, stderr=subprocess.PIPE, universal_newlines=True, errors='replace', env=env2)
                 o2 = q.stdout.strip().split('\\n')[0] if q.stdout.strip() else out[k]
@@ -530,13 +532,21 @@ while i < len(lines):
 
     def _oracle_e4(self, case, out):
         """the property on the implementation's placement dumps, independent of the model"""
-        if out.startswith(('CRASH', 'HANG', 'NONDET', 'NOOUTPUT', 'INITFAIL', 'PIPEFAIL')):
-            return 'implementation run failed: ' + out[:300]
         if out.startswith('BADCASE'): return None
+        failed = None
+        if out.startswith(('CRASH', 'HANG', 'ABORT', 'NONDET', 'NOOUTPUT', 'INITFAIL', 'PIPEFAIL')):
+            # the run ended early: what it printed up to there is still judged (a concrete placement violation is the better message)
+            failed = 'implementation run failed: ' + out[:300]
+            k = out.find('init ')
+            if k < 0 or out.startswith('NONDET'): return failed
+            out = out[k:]
         nv, flags, progs, cmds = m_parse_case(case)
         n = len(progs)
         segs = out.split(' ;; ')
-        if len(segs) != len(cmds) + 1: return 'unparsable output (%d segments for %d commands): %r' % (len(segs), len(cmds), out[:200])
+        if failed:
+            if len(segs) > 1 and ' ev=' not in segs[-1]: segs = segs[:-1]          # the command that did not complete
+            if len(segs) > len(cmds) + 1: return failed
+        elif len(segs) != len(cmds) + 1: return 'unparsable output (%d segments for %d commands): %r' % (len(segs), len(cmds), out[:200])
         attr = {}                                   # k -> (joinable, ws) from the program text
         for p in progs:
             for o, a in p:
@@ -613,7 +623,7 @@ while i < len(lines):
                             if 'p' not in flags[a]: return where + 'thread %d was stolen from vCPU %d, which is not passive' % (k, a)
                             if 'a' not in flags[b]: return where + 'vCPU %d stole thread %d although it is not active' % (b, k)
             prev = (vc, th)
-        return None
+        return failed
 
     def _oracle_prog(self, case, out):
         if out.startswith(('CRASH', 'HANG', 'NONDET', 'NOOUTPUT', 'IDLE-LIMIT', 'TRACE-LIMIT', 'INITFAIL')):
